@@ -126,7 +126,26 @@ Theorem C19_layout_rotate_twice : forall l c,
   rbind (lay_rot l c) (fun l' => lay_rot l' c) = Ok (let '(s, c0, po, sp, so) := l in (s, c, po, sp, so)).
 Proof. exact lay_rot_twice_model. Qed.
 
+(* ---- phase 3: read-only attributes of a region object (generated accessors; slices modelled as (start, stop)) and the
+   rotation of a LIST of regions (hand model of rotate_pattern_ci_via_roe_corner_from over the generated rotation) ---- *)
+Theorem C19_region1d_attributes : forall s, props1 s = props1_spec s.
+Proof. exact props1_ok. Qed.
+Theorem C19_region2d_attributes : forall s p, props2 s p = props2_spec s p.
+Proof. exact props2_ok. Qed.
+Theorem C19_pattern_rotate_is_spec : forall rs s c,
+  forallb (oforall (inside2b s)) rs = true -> cornerb c = true -> pat_rot rs s c = Ok (pat_rot_spec rs s c).
+Proof. exact pat_rot_ok. Qed.
+Theorem C19_pattern_rotate_twice : forall rs s c,
+  forallb (oforall (inside2b s)) rs = true -> cornerb c = true ->
+  rbind (pat_rot rs s c) (fun rs' => pat_rot rs' s c) = Ok rs.
+Proof. exact pat_rot_twice. Qed.
+
 (* non-vacuity: the hypotheses are met by concrete non-trivial inputs *)
+Example C19_pattern_hyps_satisfiable :
+  forallb (oforall (inside2b (3, 4))) [Some (1, 3, 0, 2); None; Some (0, 1, 3, 4)] = true
+  /\ pat_rot [Some (1, 3, 0, 2); None; Some (0, 1, 3, 4)] (3, 4) (0, 1) = Ok [Some (0, 2, 2, 4); None; Some (2, 3, 0, 1)]
+  /\ props2 (1, 3, 0, 2) (0, 1) = [1; 3; 0; 2; 2; 2; 2; 2; 0; 1; 1; 3; 0; 2; 1; 3; 0; 2].
+Proof. vm_compute. repeat split. Qed.
 Example C19_hyps_satisfiable :
   rectb 3 4 [[1;2;3;4];[5;6;7;8];[9;10;11;12]] = true /\ inside2b (3, 4) (1, 3, 0, 2) = true /\ cornerb (0, 1) = true
   /\ slice2 (rot_array_spec [[1;2;3;4];[5;6;7;8];[9;10;11;12]] (0,1)) (rot_region_spec (1,3,0,2) (3,4) (0,1))
@@ -161,3 +180,5 @@ Print Assumptions C19_parallel_front. Print Assumptions C19_parallel_front_from_
 Print Assumptions C19_parallel_trailing. Print Assumptions C19_parallel_full.
 Print Assumptions C19_serial_front. Print Assumptions C19_serial_front_from_end.
 Print Assumptions C19_serial_trailing. Print Assumptions C19_serial_towards_roe.
+Print Assumptions C19_region1d_attributes. Print Assumptions C19_region2d_attributes.
+Print Assumptions C19_pattern_rotate_is_spec. Print Assumptions C19_pattern_rotate_twice.
